@@ -131,6 +131,38 @@ pub fn eval_charset(eci: Option<u32>, bytes: &[u8], carrier: Carrier, st: &mut S
     Ok(())
 }
 
+/// Two character-set segments in one stream: [ECI e1] a [ECI e2] b.
+pub fn eval_two_segments(e1: Option<u32>, a: u8, e2: u32, b: u8, st: &mut Stats) -> Result<(), String> {
+    let mut cw = stream_with(e1, &[a], Carrier::Ascii);
+    cw.extend(stream_with(Some(e2), &[b], Carrier::Ascii));
+    let map = |e: Option<u32>, x: u8| -> Option<char> {
+        match e {
+            None | Some(3) => charset::latin1(x),
+            Some(11) => charset::latin5(x),
+            Some(13) => charset::thai(x),
+            Some(26) | Some(27) => if x < 0x80 { Some(x as char) } else { None },
+            _ => None,
+        }
+    };
+    let want: Option<String> = match (map(e1, a), map(Some(e2), b)) {
+        (Some(x), Some(y)) => Some([x, y].iter().collect()),
+        _ => None,
+    };
+    let got = guarded(|| decode_str(&cw)).map_err(|p| format!("decode_str: {}", p))?;
+    match (got, want) {
+        (Ok(g), Some(w)) if g == w => {
+            st.count("two_segments_mapped");
+            st.count("nontrivial");
+            Ok(())
+        }
+        (Err(DataDecodingError::CharsetError), None) => {
+            st.count("charset_error");
+            Ok(())
+        }
+        (g, w) => Err(format!("stream {:?}: decode_str gives {:?}, the two character sets give {:?}", cw, g, w)),
+    }
+}
+
 fn cdesc(eci: Option<u32>, bytes: &[u8], carrier: Carrier) -> Value {
     json!({"kind": "charset", "eci": eci, "bytes": hex(bytes), "carrier": format!("{:?}", carrier)})
 }
@@ -192,6 +224,18 @@ pub fn run(ctx: &Ctx) -> i32 {
             }
         }
     });
+    // 3b. two segments with different character sets
+    ctx.par(256, |c, w| {
+        let a = c as u8;
+        w.label(|| format!("two charset segments first byte {}", a));
+        for e1 in sets {
+            for e2 in [3u32, 11, 13, 26, 27] {
+                for b in (0..=255u8).step_by(ctx.tier.pick(3, 1)) {
+                    w.check(2, || json!({"kind": "two", "e1": e1, "a": a, "e2": e2, "b": b}), |st| eval_two_segments(e1, a, e2, b, st));
+                }
+            }
+        }
+    });
     // 4. UTF-8: all 3-byte sequences (thorough) / boundary alphabet (quick), 4-byte over the boundary alphabet
     let b19: Vec<u8> = vec![0x00, 0x41, 0x7F, 0x80, 0x8F, 0x90, 0x9F, 0xA0, 0xBF, 0xC0, 0xC1, 0xC2, 0xDF, 0xE0, 0xED, 0xEF, 0xF0, 0xF4, 0xF5];
     {
@@ -226,7 +270,7 @@ pub fn run(ctx: &Ctx) -> i32 {
         "distinct_nontrivial": ctx.counter("nontrivial"),
         "rule": format!("write side: all 1,000,000 ECI numbers through encode_eci: codewords after 241 equal the closed formulas of ISO/IEC 16022 Table 6, are read back (hook eci_spans) as the same number, decode_data reports ECICode; \
 read side: every designator sequence of the length its first codeword demands (127 + 64*256 + 16*65536) and every truncation: accepted with the right number iff well formed; character sets: ECI none/3/11/13/26/27 x all 256 bytes x ASCII(upper shift) and Base256 carriage, \
-all byte pairs in Base256 (one fifth in ASCII), all 16.7 M 3-byte sequences and all sequences of length 3..4 over a 19-value boundary alphabet under ECI 26{}: decode_str equals ISO 8859-1/-9/-11 by rule resp. passes exactly the RFC 3629 / 7-bit sequences, CharsetError elsewhere. All cases distinct; \
+all byte pairs in Base256 (one fifth in ASCII), two segments [ECI e1] a [ECI e2] b for all character-set pairs and bytes a, b, all 16.7 M 3-byte sequences and all sequences of length 3..4 over a 19-value boundary alphabet under ECI 26{}: decode_str equals ISO 8859-1/-9/-11 by rule resp. passes exactly the RFC 3629 / 7-bit sequences, CharsetError elsewhere. All cases distinct; \
 non-trivial = number round trip, malformed designator rejected, or defined character mapped.", if ctx.tier == Tier::Thorough { " (thorough: boundary alphabet also at length 5)" } else { "" }),
         "exhaustive": true,
         "wellformed_designators_beyond_999999_accepted_not_judged": ctx.counter("wellformed_beyond_999999"),
@@ -243,6 +287,7 @@ pub fn replay(case: &Value) -> Result<(), String> {
     match case["kind"].as_str().unwrap_or("") {
         "number" => eval_number(case["eci"].as_u64().ok_or("eci")? as u32, &mut st),
         "designator" => eval_designator(&unhex(case["seq"].as_str().ok_or("seq")?), &mut st),
+        "two" => eval_two_segments(case["e1"].as_u64().map(|e| e as u32), case["a"].as_u64().ok_or("a")? as u8, case["e2"].as_u64().ok_or("e2")? as u32, case["b"].as_u64().ok_or("b")? as u8, &mut st),
         "charset" => {
             let carrier = if case["carrier"] == "Ascii" { Carrier::Ascii } else { Carrier::Base256 };
             eval_charset(case["eci"].as_u64().map(|e| e as u32), &unhex(case["bytes"].as_str().ok_or("bytes")?), carrier, &mut st)
